@@ -1,8 +1,14 @@
 (* Extraction of the front engine (C02): the Includes mirror run through
-   Model.Front, and the class table of Spec.NoSilentSpec (which mirror produces
-   the report of a failure class, in which form).  Only ExtrOcamlBasic is used. *)
+   Model.Front; third pass: the stages of Model.FrontStages (version check, main
+   components, the desugaring stage = Model.Desugar, the error values of
+   generate_cfg = Model.LiftFull + the chain Model.PipelineMirrors) run on what
+   the parser yields for the files of the project; and the class table of
+   Spec.NoSilentSpec (which mirror produces the report of a failure class, how
+   much of it is derived, in which form).  Only ExtrOcamlBasic is used. *)
 Require Extraction.
 Require Import ExtrOcamlBasic.
-Require Import Model.Base Model.Includes Model.Front Spec.NoSilentSpec.
+Require Import Model.Base Model.Includes Model.Front Model.FrontStages Spec.NoSilentSpec.
+Require Model.Ast Model.Desugar Model.LiftFull Model.Dom Model.PipelineMirrors Spec.ExpandSpec Gen.CompilerVersion.
 Separate Extraction Base.base_roots Base.outcome Includes.run_project Includes.canon_idempotent_b Front.front_run
+  FrontStages.stage_run ExpandSpec.stmt_metas Dom.id_order CompilerVersion.compiler_version
   NoSilentSpec.class_table.
